@@ -20,12 +20,19 @@ ASSUME TLCSet(1, 0)
 VARIABLES l, hc     \* hc: function from half-connection id to its state
 T == Trace[l]
 IsEvent(e) == l <= Len(Trace) /\ Trace[l].ev = e /\ l' = l + 1
-Fresh == [seq |-> 0, epoch |-> 0, err |-> FALSE, pend |-> FALSE, ivs |-> {}]
+\* sequence numbers are 8-byte big-endian strings (TLC's integers are 32-bit; the counter is watched across 2^32 as well)
+Zero8 == <<0, 0, 0, 0, 0, 0, 0, 0>>
+RECURSIVE IncAt(_, _)
+IncAt(b, i) == IF i = 0 THEN Zero8                           \* (wrap-around: never reached by a real connection)
+               ELSE IF b[i] = 255 THEN IncAt([b EXCEPT ![i] = 0], i - 1) ELSE [b EXCEPT ![i] = b[i] + 1]
+Inc8(b) == IncAt(b, 8)
+RECURSIVE LeqFrom(_, _, _)
+LeqFrom(a, b, i) == IF i > 8 THEN TRUE ELSE IF a[i] < b[i] THEN TRUE ELSE IF a[i] > b[i] THEN FALSE ELSE LeqFrom(a, b, i + 1)
+Leq8(a, b) == LeqFrom(a, b, 1)
+Fresh == [seq |-> Zero8, epoch |-> 0, err |-> FALSE, pend |-> FALSE, ivs |-> {}]
 St(i) == IF i \in DOMAIN hc THEN hc[i] ELSE Fresh
 Put(i, s) == hc' = [j \in (DOMAIN hc) \cup {i} |-> IF j = i THEN s ELSE hc[j]]
 
-\* big-endian 8-byte encoding of a small sequence number
-Seq8(n) == <<0, 0, 0, 0, (n \div 16777216) % 256, (n \div 65536) % 256, (n \div 256) % 256, n % 256>>
 
 \* next run: all half connections are new; nothing of the previous run may be left pending
 \* (a rejected record whose sticky error was never set)
@@ -34,20 +41,23 @@ TEnd == IsEvent("end") /\ (\A i \in DOMAIN hc : ~hc[i].pend) /\ UNCHANGED hc
 TEnc == /\ IsEvent("enc")
         /\ LET s == St(T.hc) IN
            /\ T.seq = s.seq /\ ~s.pend
-           /\ (Len(T.iv) = 8 => T.iv = Seq8(s.seq))
+           /\ (Len(T.iv) = 8 => T.iv = s.seq)
            /\ (Len(T.iv) = 16 => T.iv \notin s.ivs)
-           /\ Put(T.hc, [s EXCEPT !.seq = s.seq + 1, !.ivs = IF Len(T.iv) = 16 THEN s.ivs \cup {T.iv} ELSE s.ivs])
+           /\ Put(T.hc, [s EXCEPT !.seq = Inc8(s.seq), !.ivs = IF Len(T.iv) = 16 THEN s.ivs \cup {T.iv} ELSE s.ivs])
 TDec == /\ IsEvent("dec")
         /\ LET s == St(T.hc) IN
            /\ T.seq = s.seq /\ ~s.err /\ ~s.pend
-           /\ Put(T.hc, IF T.ok THEN [s EXCEPT !.seq = s.seq + 1] ELSE [s EXCEPT !.pend = TRUE])
+           /\ Put(T.hc, IF T.ok THEN [s EXCEPT !.seq = Inc8(s.seq)] ELSE [s EXCEPT !.pend = TRUE])
 TCCS == /\ IsEvent("ccs")
-        /\ LET s == St(T.hc) IN ~s.pend /\ Put(T.hc, [s EXCEPT !.seq = 0, !.epoch = s.epoch + 1, !.ivs = {}])
+        /\ LET s == St(T.hc) IN ~s.pend /\ Put(T.hc, [s EXCEPT !.seq = Zero8, !.epoch = s.epoch + 1, !.ivs = {}])
+\* (harness) the counter of a half connection is moved forward, to watch the record layer where it carries into the upper bytes
+TSetSeq == /\ IsEvent("setseq")
+           /\ LET s == St(T.hc) IN ~s.pend /\ Leq8(s.seq, T.seq) /\ Put(T.hc, [s EXCEPT !.seq = T.seq])
 TErr == /\ IsEvent("seterr")
         /\ LET s == St(T.hc) IN Put(T.hc, [s EXCEPT !.err = TRUE, !.pend = FALSE])
 
 TraceInit == l = 1 /\ hc = <<>>
-TraceNext == TReset \/ TEnd \/ TEnc \/ TDec \/ TCCS \/ TErr
+TraceNext == TReset \/ TEnd \/ TEnc \/ TDec \/ TCCS \/ TErr \/ TSetSeq
 TraceSpec == TraceInit /\ [][TraceNext]_<<l, hc>>
 HighWater == TLCSet(1, IF l > TLCGet(1) THEN l ELSE TLCGet(1))
 Accepted == PrintT(<<"HWM", TLCGet(1), Len(Trace)>>) /\ TLCGet(1) = Len(Trace) + 1
